@@ -136,4 +136,12 @@ example :
 example : (logIn (some (mkScope none { name := "a".toList } 0)) .error "%d".toList [.str "x".toList] false).text = none := by
   decide
 
+/-- after a scope whose disposable cleanup raised has been left, the task's context variable is back at the
+enclosing scope: later lines are tagged with the enclosing scope (by `tagged_run`) -/
+example :
+    let evs := [ScopeRun.Ev.openScope 0 true false { name := "outer".toList, trace := some "tr1".toList },
+                .openScope 0 true true { name := "inner".toList, logger := some 1 }, .exit 0 false]
+    ((ScopeRun.run ScopeRun.init evs).tasks 0).cur = some 0 := by
+  decide
+
 end Haiway.C19
